@@ -188,6 +188,9 @@ func runHostile(c HostileCase) (*hostileStats, error) {
 		case "options":
 			ok = call("Options", func() error { _, err := cl.Options(u); return err })
 		case "describe":
+			// an application that asks for a description starts a new exchange (the client may follow a redirect and drop
+			// the session altogether): it does not go on writing to the medias of the recording it had
+			recording = false
 			ok = call("Describe", func() error {
 				d, _, err := cl.Describe(u)
 				if err == nil {
